@@ -132,7 +132,7 @@ def install_contracts(rec):
 # generators (everything is a function of the small JSON dict `g`)
 # --------------------------------------------------------------------------
 SPD_CLASSES = ["diag", "rot", "dcd", "expcorr"]
-K_CLASSES = ["gauss", "gauss", "rankdef", "zero", "wf", "sym", "colscale"]
+K_CLASSES = ["gauss", "gauss", "rankdef", "zero", "wf", "sym", "colscale", "zerorows"]
 
 
 def gen_spd(rng, cls, n, kappa, unit):
@@ -177,6 +177,13 @@ def gen_K(rng, cls, m, n, unit):
         c = rng.uniform(0, 1, m)
         w = rng.uniform(0.05, 0.5, m)
         k = np.exp(-0.5 * ((z[None, :] - c[:, None]) / w[:, None]) ** 2)
+    elif cls == "zerorows":
+        # channels without any sensitivity to the state (exactly zero rows), K itself not zero;
+        # with a correlated S_y such a channel still carries information through its noise
+        k = rng.normal(size=(m, n))
+        if m >= 2:
+            rows = rng.choice(m, size=int(rng.integers(1, max(2, m // 2 + 1))), replace=False)
+            k[rows, :] = 0.0
     elif cls == "sym":
         k = rng.normal(size=(m, n))
         if m == n:
@@ -261,6 +268,22 @@ def evaluate(g, rec, collect):
     ok1, S = call(rec, case, "error_covariance_matrix", common.error_covariance_matrix, K, S_a, S_y)
     ok2, G = call(rec, case, "retrieval_gain_matrix", common.retrieval_gain_matrix, K, S_a, S_y)
     ok3, A = call(rec, case, "averaging_kernel_matrix", common.averaging_kernel_matrix, K, S_a, S_y)
+    # call history: the caller post-processes a returned matrix in place and asks again with
+    # equal-valued inputs - the answer must not depend on what happened to the earlier result
+    for name, fn, ok, res in (("error_covariance_matrix", common.error_covariance_matrix, ok1, S),
+                              ("retrieval_gain_matrix", common.retrieval_gain_matrix, ok2, G)):
+        if ok and isinstance(res, np.ndarray) and res.flags.writeable and g["s"] % 3 == 0:
+            first = res.copy()
+            res *= 3.0
+            res[0, 0] = 12345.0
+            ok_b, again = call(rec, case, name + " (2nd call)", fn, K.copy(), S_a.copy(), S_y.copy())
+            rec.count("history.second_calls")
+            if ok_b and not np.array_equal(np.asarray(again), first):
+                collect("result-aliased", {"function": name,
+                                           "why": "a second call returns the array the caller modified",
+                                           "second_call_00": float(np.asarray(again)[0, 0]),
+                                           "first_call_00": float(first[0, 0])})
+            res[...] = first
     nS, nSa = ref.nS, ref.la_max
     I = np.eye(n, dtype=M.LD)
     if ok1:
